@@ -39,7 +39,7 @@ IO = 'chainables.io'
 
 
 def run(ctx: Ctx):
-  for r in (r1, r2, r3, r4, r6, r8, r9, r10, r11, r12, r14, r15):
+  for r in (r1, r2, r3, r4, r6, r8, r9, r10, r11, r12, r14, r15, r16):
     ctx.guard(r)
   from mlmverif.props import c03
   ctx.include('R-C10-13', '"the captured state": MultiplexIterator.state reads the positions of `_source_iterators` — the'
@@ -915,12 +915,59 @@ def r15(ctx: Ctx):
   ctx.floor(rule, 1, n)
 
 
+def r16(ctx: Ctx):
+  rule = 'R-C10-16'
+  ctx.rule(rule, '"this holds for any number of successive checkpoints": restoring does not make the state grow. shard() records'
+           ' the source\'s own state as `parent`, and from_state replays the recorded parent chain by recursion, one shard()'
+           ' per level — so the replay of the chain\'s ROOT (the default state of the unsharded source) must yield the'
+           ' unsharded source itself, without a shard() call: from_state returns the rebuilt root under a test that the'
+           ' state equals the default `ShardConfig()`. Otherwise every restored state is one level deeper than the recorded'
+           ' one; after ~1000 checkpoint/restore generations the recursion over the chain raises RecursionError')
+  repo = ctx.repo
+  fi = repo.func(IO, 'SequenceDataSource.from_state')
+  p = fi.params()[1]
+  shard = repo.func(IO, 'SequenceDataSource.shard')
+  nests = any(isinstance(k, ast.keyword) and k.arg == 'parent' and 'self' in unparse(k.value) for c in ast.walk(shard.node)
+              if isinstance(c, ast.Call) for k in c.keywords)
+  recursive = any(isinstance(c, ast.Call) and unparse(c.func) == 'self.from_state' for c in ast.walk(fi.node))
+  if not (nests and recursive):
+    ctx.info(rule, fi, 'shard() no longer nests the parent state / from_state is not recursive: nothing to require')
+    ctx.floor(rule, 0)
+    return
+  ok = False
+  for x in ast.walk(fi.node):
+    if isinstance(x, ast.If) and isinstance(x.test, ast.Compare) and len(x.test.ops) == 1 and isinstance(x.test.ops[0], (ast.Eq, ast.NotEq)):
+      sides = [x.test.left, x.test.comparators[0]]
+      if any(isinstance(e, ast.Name) and e.id == p for e in sides) and any(
+          isinstance(e, ast.Call) and not e.args and not e.keywords and unparse(e.func).endswith('ShardConfig') for e in sides):
+        branch = x.body if isinstance(x.test.ops[0], ast.Eq) else x.orelse
+        rets = [r_ for b in branch for r_ in ast.walk(b) if isinstance(r_, ast.Return) and r_.value is not None]
+        if rets and not any(isinstance(c, ast.Call) and isinstance(c.func, ast.Attribute) and c.func.attr == 'shard'
+                            for r_ in rets for c in ast.walk(r_.value)):
+          ok = True
+  what = 'SequenceDataSource.from_state: the root state replays to the unsharded source itself'
+  if ok:
+    ctx.ok(rule, fi, what, fi.node)
+  else:
+    ctx.fail(rule, fi, what,
+             f'from_state replays every level of the recorded chain with shard(), also the chain\'s root (`{p}.parent is None`):'
+             ' shard() records the unsharded source\'s default state as a parent once more, so the state of a restored source is'
+             ' one level deeper than the state it was restored from — successive checkpoint/restore cycles grow the chain'
+             ' without bound (slower restores, RecursionError after ~1000 generations)', node=fi.node)
+  ctx.floor(rule, 1)
+
+
 from mlmverif.selfcheck import B, OK  # noqa: E402
 
 _F = 'chainables/io.py'
 _T = 'chainables/transform.py'
 _U = 'utils/iter_utils.py'
 VARIANTS = [
+    B('revert-root-state-replayed-with-a-shard-call', 'chainables/io.py',
+      "      if shard_state == ShardConfig():\n        # The state of the unsharded source itself: sharding it once more would\n        # nest every restored state one level deeper than the recorded one.\n        return result\n", '', 'R-C10-16'),
+    OK('root-state-handled-first', 'chainables/io.py',
+       "    if shard_state.parent is not None:\n      result = self.from_state(shard_state.parent)\n    else:\n      result = SequenceDataSource(self.data, ignore_error=self.ignore_error)\n      if shard_state == ShardConfig():\n        # The state of the unsharded source itself: sharding it once more would\n        # nest every restored state one level deeper than the recorded one.\n        return result\n",
+       "    if shard_state == ShardConfig():\n      return SequenceDataSource(self.data, ignore_error=self.ignore_error)\n    if shard_state.parent is not None:\n      result = self.from_state(shard_state.parent)\n    else:\n      result = SequenceDataSource(self.data, ignore_error=self.ignore_error)\n"),
     B('restore-reuses-a-source-at-the-recorded-position', 'utils/iter_utils.py',
       '      data_sources.append(data_source.from_state(ds_state))',
       '      if data_source.state != ds_state:\n        data_source = data_source.from_state(ds_state)\n      data_sources.append(data_source)', 'R-C10-15'),
